@@ -35,6 +35,7 @@ type Hint struct {
 	Params string `json:"params"`            // hex, ETYPE-INFO2 only, "" = absent
 	NoSalt bool   `json:"no_salt,omitempty"` // ETYPE-INFO / ETYPE-INFO2 entry without the optional salt field: the default salt applies
 	Empty  bool   `json:"empty,omitempty"`   // ETYPE-INFO / ETYPE-INFO2 whose sequence has no entry at all (kind padata-order only)
+	EType  int32  `json:"etype,omitempty"`   // ETYPE-INFO / ETYPE-INFO2: the entry names this etype instead of the case's (kind padata-order only)
 }
 
 // Case covers all sub-checks of C08.
@@ -200,9 +201,13 @@ func evalS2K(c Case) evid.Verdict {
 var otherPATypes = []int{2, 16, 17, 133, 136, 138, 167, 1, 4242}
 
 // encodeHints renders the hints as the PA-DATA sequence a KDC would send.
-func encodeHints(et int32, hints []Hint) types.PADataSequence {
+func encodeHints(caseET int32, hints []Hint) types.PADataSequence {
 	var pas types.PADataSequence
 	for _, h := range hints {
+		et := caseET
+		if h.EType != 0 {
+			et = h.EType
+		}
 		salt := unhex(h.Salt)
 		var val []byte
 		switch h.Type {
@@ -260,7 +265,11 @@ func expectedKey(c Case, hints []Hint, emptyClaims bool) (want []byte, best int,
 			params = unhex(chosen.Params)
 		}
 	}
-	want, err = ref.StringToKey(c.EType, string(unhex(c.Password)), salt, params)
+	et := c.EType
+	if best >= 0 && chosen.EType != 0 {
+		et = chosen.EType // the winning element names the etype together with the salt and the parameters
+	}
+	want, err = ref.StringToKey(et, string(unhex(c.Password)), salt, params)
 	return
 }
 
@@ -271,8 +280,8 @@ func evalPAData(c Case) evid.Verdict {
 		return evalPAOrder(c, pw, cname)
 	}
 	for _, h := range c.Hints {
-		if h.Empty {
-			return evid.Fail("harness", "elements without entries belong to kind padata-order")
+		if h.Empty || h.EType != 0 {
+			return evid.Fail("harness", "elements without entries or naming another etype belong to kind padata-order")
 		}
 	}
 	pas := encodeHints(c.EType, c.Hints)
@@ -330,6 +339,9 @@ func evalPAOrder(c Case, pw string, cname types.PrincipalName) evid.Verdict {
 			if hs[i].Empty {
 				names[i] += "(no entries)"
 			}
+			if hs[i].EType != 0 {
+				names[i] += fmt.Sprintf("(etype %d)", hs[i].EType)
+			}
 		}
 		order := strings.Join(names, ",")
 		key, _, err := crypto.GetKeyFromPassword(pw, cname, c.Realm, c.EType, encodeHints(c.EType, hs))
@@ -338,7 +350,7 @@ func evalPAOrder(c Case, pw string, cname types.PrincipalName) evid.Verdict {
 			// refusing a set with an element without entries is fine, as long as every order is refused
 			key.KeyValue = []byte("error")
 		case !bytes.Equal(key.KeyValue, wa) && !bytes.Equal(key.KeyValue, wb):
-			ok, verdict = false, evid.Fail("pa-precedence:empty-element", "GetKeyFromPassword with elements in order [%s] gives key %x: neither the key of the set without the empty elements (%x) nor the key with them outranking the lower kinds (%x)", order, key.KeyValue, wa, wb)
+			ok, verdict = false, evid.Fail("pa-precedence:odd-element", "GetKeyFromPassword with elements in order [%s] gives key %x: neither the key the highest-ranking element with entries selects (its etype, salt and parameters: %x) nor the key with the elements without entries outranking the lower kinds (%x)", order, key.KeyValue, wa, wb)
 			return
 		}
 		if first == nil {
@@ -771,6 +783,41 @@ func TestProp(t *testing.T) {
 			r.Violation("s2k", pool[i], v)
 		})
 	}()
+	// elements that name different etypes: the highest-ranking one decides etype, salt and parameters together, in every order
+	r.Rule("padata-order (enumerated, continued): ETYPE-INFO naming etype a and ETYPE-INFO2 naming etype b for every ordered pair a != b of the six etypes, with and without a PW-SALT, requested etype a or b: every order gives the key ETYPE-INFO2 selects (etype b, its salt, its parameters or b's default)")
+	type ej struct {
+		a, b, req int32
+		pw        bool
+	}
+	var ejobs []ej
+	for _, a := range ref.ETypes {
+		for _, b := range ref.ETypes {
+			if a == b {
+				continue
+			}
+			for _, req := range []int32{a, b} {
+				for _, pw := range []bool{false, true} {
+					if r.Quick() && (int(a)+2*int(b)+int(req)+len(ejobs)+int(r.Seed()))%3 != 0 {
+						continue
+					}
+					ejobs = append(ejobs, ej{a, b, req, pw})
+				}
+			}
+		}
+	}
+	evid.Parallel(len(ejobs), 16, func(i int) {
+		j := ejobs[i]
+		lbl := fmt.Sprintf("pae/%d/%d/%d/%v", j.a, j.b, j.req, j.pw)
+		c := Case{Kind: "padata-order", EType: j.req, Realm: "EXAMPLE.COM", CName: "alice/admin", Password: hex.EncodeToString([]byte("password-" + hex.EncodeToString(kgen.DetBytes(r.Seed(), lbl, 3))))}
+		c.Hints = []Hint{{Type: 11, EType: j.a, Salt: hex.EncodeToString([]byte("SALT11-" + lbl))}, {Type: 19, EType: j.b, Salt: hex.EncodeToString([]byte("SALT19-" + lbl))}}
+		if i%2 == 0 && j.b != ref.DES3 && j.b != ref.RC4 {
+			c.Hints[1].Params = fmt.Sprintf("%08x", 1+int(kgen.DetBytes(r.Seed(), lbl+"/p", 1)[0]))
+		}
+		if j.pw {
+			c.Hints = append(c.Hints, Hint{Type: 3, Salt: hex.EncodeToString([]byte("SALT3-" + lbl))})
+		}
+		judge("padata", c, "padata-order|"+lbl, nil, fmt.Sprintf("hints%d", len(c.Hints)), fmt.Sprintf("etype%d", j.req), "elements-naming-different-etypes")
+	})
 	r.Rule("genkey: GenerateEncryptionKey, GenerateSeqNumberAndSubKey(GetKeyByteSize), the session key of messages.NewTicket and the subkey of kadmin.ChangePasswdMsg for every etype: RFC key length, usable for encrypt/decrypt/checksum, decryptable by the reference")
 	for _, et := range ref.ETypes {
 		for k := 0; k < r.N(8, 200); k++ {
